@@ -64,13 +64,18 @@ MATRIX_CLASS = {
 
 
 # ----------------------------------------------------------------------------- building inputs
-def build(t, taxa, rooted=None):
-    """DendroPy tree of a labelled nested tuple; taxa: label -> Taxon"""
+def build(t, taxa, rooted=None, internal_taxa=()):
+    """DendroPy tree of a labelled nested tuple; taxa: label -> Taxon.  internal_taxa: labels of taxa put on internal nodes
+    (in preorder) -- the score is a minimum over ALL assignments to internal nodes whatever taxa these nodes carry"""
+    pool = list(internal_taxa)
+
     def mk(x):
         nd = Node()
         if P.is_leaf(x):
             nd.taxon = taxa[x]
         else:
+            if pool:
+                nd.taxon = taxa[pool.pop(0)]
             for c in x:
                 nd.add_child(mk(c))
         return nd
@@ -303,10 +308,12 @@ def _w_types(task):
         else:
             w = [0] * ncol
         minima = P.column_minima(t, rows, dtype, gap)
+        itax = list(extra) if (extra and rng.random() < 0.5) else []
         for api in ("parsimony_score", "fitch_down_pass[no_attr]"):
-            key = case_key(api, dtype, gap, P.tree_str(t), rows, w)
+            key = case_key(api, dtype, gap, P.tree_str(t), rows, w) + ("|internal-taxa=%s" % ",".join(itax) if itax else "")
             acc.case(key, sum(minima) >= 1)
-            score_once(acc, api, t, P.tree_str(t), taxa, dtype, rows, gap, w, minima, size=100 + n)
+            score_once(acc, api, t, P.tree_str(t), taxa, dtype, rows, gap, w, minima, size=100 + n,
+                       tree=(build(t, taxa, internal_taxa=itax) if itax else None), mon_prefix=None)
     return acc.out()
 
 
@@ -357,10 +364,16 @@ def run_history(acc, api, t, taxa, dtype, calls, size):
     """calls: [(rows, gap)], all on ONE tree object"""
     tstr = P.tree_str(t)
     tree = build(t, taxa)
+    mats = {}
     for k, (rows, gap) in enumerate(calls):
         minima = P.column_minima(t, rows, dtype, gap)
         want = sum(minima)
-        m = make_matrix(dtype, rows, taxa)
+        # one matrix OBJECT per distinct content: a matrix scored again (under the same or the other gap mode) is the same object,
+        # as in user code -- the score must be a function of the tree and matrix passed in, not of what was asked of them before
+        mk = rows_str(rows)
+        if mk not in mats:
+            mats[mk] = make_matrix(dtype, rows, taxa)
+        m = mats[mk]
         key = "%s|%s|tree=%s|calls=%s" % (api, dtype, tstr, ";".join("%s/gap_missing=%d" % (rows_str(r), g) for r, g in calls[: k + 1]))
         witness = dict(api=api, dtype=dtype, tree=tstr, calls=[[rows_str(r), bool(g)] for r, g in calls[: k + 1]], history=True)
         mon = ("%s.minimum" % api) if k == 0 else history_monitor(api, calls, k)
@@ -413,6 +426,9 @@ def _w_history(task):
                     run_history(acc, "parsimony_score", t, taxa, "dna", [(r1, g1), (r2, g2), (r1, g1)], size=n)
         # the attribute-free route once per pair
         run_history(acc, "fitch_down_pass[no_attr]", forms[0], taxa, "dna", [(r1, True), (r2, True), (r1, False)], size=n)
+        # one matrix object under both gap treatments, in both orders
+        for g1 in (True, False):
+            run_history(acc, "parsimony_score", forms[0], taxa, "dna", [(r2, g1), (r2, not g1), (r2, g1)], size=n)
     return acc.out()
 
 
